@@ -1,10 +1,25 @@
 """C05 — queries return exactly the matching events, newest first, newest-k under limit."""
+import os, shutil
 from ._store import run_store
+from ..common import RUNDIR
 
 THEOREMS = ['findEvents_sound', 'findEvents_nip01', 'redacted_sound', 'scrape_gate', 'findEvents_total', 'findEvents_exact', 'plan_independent', 'newest_under_limit', 'answer_characterised',
             'index_key_order', 'index_range_bounds', 'tag_index_range_bounds', 'time_index_scan', 'author_index_scan', 'author_kind_index_scan', 'tag_index_scan', 'author_tag_index_scan', 'kind_tag_index_scan', 'tag_rows_are_dumped_keys', 'index_padding_from_source', 'keys_from_source', 'iter_bounds_from_source', 'scrape_gate_from_source']
 
 
+def spanning(c, runner):
+    """a query that is still running while other threads store: its answer is the set of matching retrievable events of ONE
+    committed state, whichever index plan serves it - including the (author, replaceable kind) pairs of the authors+kinds plan
+    (shared with C14: lib/conc.spanning_queries)"""
+    from ..conc import spanning_queries
+    base = os.path.join(RUNDIR, 'C05q-%d' % os.getpid())
+    os.makedirs(base, exist_ok=True)
+    try:
+        spanning_queries(c, base, nrep=2 if c.tier == 'quick' else 12)
+    finally:
+        shutil.rmtree(base, ignore_errors=True)
+
+
 def run():
     run_store('C05', THEOREMS, """Focus: ~40 filters after every step: every combination class of ids / authors / kinds / tag constraints with one or several letters and values (values taken from stored events and absent ones, multi-letter and empty names), windows incl. inverted, future, 0 and u64::MAX, limits 0,1,2,3,5,unset, screens all-match / by id parity (match, mismatch, redacted) / all-mismatch / all-redacted, scraping allowances; oracle: ValidAnswer of the property text (no duplicates, newest first, all qualifying if they fit the limit else the newest `limit` with ties at the cut free, redacted only if a matching event was screened redacted, refused as scraping only by the stated rule). non-trivial = distinct query with a non-empty valid answer.""",
-              {'query', 'selffind'}, relevant={'FND', 'KYS'}, quick=(30, 25, 14), thorough=(500, 60, 25))
+              {'query', 'selffind'}, relevant={'FND', 'KYS'}, quick=(30, 25, 14), thorough=(500, 60, 25), extra=spanning)
